@@ -456,6 +456,9 @@ def r8_membership(chk, cls):
                "connect() then re-adopts it through append_atom without a coordinate row or a charge")
 
 
+EXCLUDED = set()   # (captor, left out): `isinstance(p, int) and not isinstance(p, Element)` - filled by _type_cases, read by R7
+
+
 def _type_cases(prog, f):
     """ordered class names of the `case K():` arms of the match on the first parameter"""
     p = f.params()[1]
@@ -470,6 +473,13 @@ def _type_cases(prog, f):
         body = [s for s in f.node.body if not (isinstance(s, ast.Expr) and isinstance(s.value, ast.Constant))]
         for s in body:
             t = s.test if isinstance(s, ast.If) else None
+            # `isinstance(p, int) and not isinstance(p, Element)`: the int case that leaves the IntEnum to a later arm
+            if t is not None and isinstance(t, ast.BoolOp) and isinstance(t.op, ast.And) and len(t.values) == 2 and isinstance(t.values[0], ast.Call) \
+                    and call_name(t.values[0]) == "isinstance" and isinstance(t.values[1], ast.UnaryOp) and isinstance(t.values[1].op, ast.Not) \
+                    and isinstance(t.values[1].operand, ast.Call) and call_name(t.values[1].operand) == "isinstance" \
+                    and norm(t.values[1].operand.args[0]) == p and norm(t.values[0].args[0]) == p:
+                EXCLUDED.add((norm(t.values[0].args[1]), norm(t.values[1].operand.args[1])))
+                t = t.values[0]
             if t is not None and isinstance(t, ast.Call) and call_name(t) == "isinstance" and len(t.args) == 2 and norm(t.args[0]) == p and not s.orelse and _ends(s.body, (ast.Return, ast.Raise)):
                 ks = t.args[1].elts if isinstance(t.args[1], ast.Tuple) else [t.args[1]]
                 for k in ks:
@@ -506,6 +516,7 @@ def r7_sibling_resolvers(chk, cls):
     gi = prog.method(pm, "get_atom_index")
     chk.require(ga is not None and gi is not None, "Promolecule.get_atom / get_atom_index vanished")
     chk.analysed(ga, gi)
+    EXCLUDED.clear()
     ca, ci_ = _type_cases(prog, ga), _type_cases(prog, gi)
     # builtin supertypes of the repo's enum classes (Element(IntEnum) is an int)
     supers = {}
@@ -536,7 +547,7 @@ def r7_sibling_resolvers(chk, cls):
         chk.require(delegates, f"{gi.key}: the closing return `{short(rv, 50)}` is not the index of get_atom({p_})")
         si = si[: si.index("*")]
     missing = [n for n in sa if n not in si]
-    captured = [n for n in missing if supers.get(n) in si]
+    captured = [n for n in missing if supers.get(n) in si and (supers.get(n), n) not in EXCLUDED]
     if delegates and not captured:
         missing = []
     key = f"{gi.key}:same-type-cases-as-get_atom"
